@@ -193,13 +193,20 @@ func (sp *SAMLServiceProvider) decryptAssertions(el *etree.Element) error {
 			return fmt.Errorf("unable to create element from decrypted assertion bytes: %v", err)
 		}
 
+		// Only an Assertion may take the place of an EncryptedAssertion: any other
+		// element would be decoded as if the Response itself carried it.
+		decrypted := doc.Root()
+		if decrypted.Tag != AssertionTag || decrypted.NamespaceURI() != SAMLAssertionNamespace {
+			return fmt.Errorf("decrypted element is not an assertion: %s", decrypted.Tag)
+		}
+
 		// Replace the original encrypted assertion with the decrypted one.
 		if el.RemoveChild(encryptedElement) == nil {
 			// Out of an abundance of caution, make sure removed worked
 			panic("unable to remove encrypted assertion")
 		}
 
-		el.AddChild(doc.Root())
+		el.AddChild(decrypted)
 		return nil
 	}
 
